@@ -41,6 +41,11 @@ CLAIMED = {
         note="Trusted: Lean kernel; gen_dict.py translator; reference/dictionary.json (reviewed snapshot, not an independent authority); hand model of the typed constructors tied by correspondence; CPython ipaddress/datetime/struct/re. Known finding C10-default-flags-297-299 (tests pin it).",
         technique="Lean 4 proof (decide +kernel over regenerated tables; case analysis per kind) + differential correspondence",
         design="4 C10"),
+    "C09": dict(
+        text="Lean: generic theorems about the _load loop for any table row and any arguments (AVPs = those produced by the arguments, in argument order, extras last; a None mandatory argument raises; each argument is carried by the dictionary class its key maps to with that class's code/vendor/flags; mandatory exactly once under distinct keys; R/P flag rule; Message Length = size when the Application-ID is set), plus table facts decided by the kernel over the command table regenerated from the source: regular constructor shape, keys resolve to dictionary classes, mandatory keys are parameters (_partial: one listed class), request/answer partners agree on command code and Application-ID, command code / Application-ID / R flag / mandatory key set equal the reviewed snapshot. Tie: every class x argument subsets through the real constructors compared with the model, with the reference encoding of (command header, arguments in declared order), clause by clause, and through a serialise/decode round trip.",
+        note="Trusted: Lean kernel; gen_commands.py translator; reference/commands.json (reviewed snapshot); hand model of _load tied by correspondence; Session-Id arguments passed as bytes (generation is C16). Known findings: base ASA/RAA built without Application-ID (two-step usage), S6b AAAnswer dead mandatory key.",
+        technique="Lean 4 proof (list induction over the _load loop; decide +kernel over regenerated tables) + differential correspondence",
+        design="4 C09"),
 }
 
 NOT_YET = {
